@@ -780,3 +780,45 @@ Example c18_partial_count :
           [(1,1,1);(-1,1,1);(-1,-1,1)]
   = ([[0;1;2]], [4]).
 Proof. vm_compute. reflexivity. Qed.
+
+(* ------------------------------------------------------------------------- *)
+(* the dual as a grid of its own: which dual faces meet at dual node f         *)
+
+(* dual face k (built around primal node v_k) has dual node f as a corner only if v_k is a corner
+   of primal face f: the node_face table of the dual, in DUAL-FACE numbering k, is contained in
+   { k | v_k in corners (primal face f) } *)
+Theorem c18_dual_node_face t np dp k v row f :
+  nth_error (c18_dual_face_nodes t (length np)) k = Some v ->
+  nth_error (c18_dual_faces t np dp) k = Some row ->
+  In f (c18_real row) ->
+  exists i r, f = Z.of_nat i /\ nth_error t i = Some r /\ In v (corners r).
+Proof.
+  intros Hk Hrow Hf.
+  destruct (c18_dual_rows_pad t np dp k v Hk) as (row' & ring & Hr & E & _ & Hfa & _).
+  rewrite Hrow in Hr. injection Hr as <-. subst row.
+  unfold c18_real in Hf. apply filter_In in Hf. destruct Hf as [Hin Hnf].
+  apply in_app_or in Hin. destruct Hin as [Hin|Hin].
+  - rewrite Forall_forall in Hfa. apply Hfa. exact Hin.
+  - apply repeat_spec in Hin. subst f. discriminate.
+Qed.
+
+(* on a partial grid the dual faces are renumbered (k <> v_k), so the primal face_node table is NOT
+   the dual's node_face table: dual face 0 has dual node 1 as a corner, but primal face 1 does not
+   list "0" among its corners (it lists 4, the primal node dual face 0 was built around) *)
+Example c18_handover_refuted :
+  let t := [[0;2;4];[2;1;4];[1;3;4]] in
+  let dp := [(1,1,1);(-1,1,1);(-1,-1,1)] in
+  c18_dual_face_nodes t 6 = [4] /\
+  nth_error (c18_dual_faces t c18_octa_nodes dp) 0 = Some [0;1;2] /\
+  In 1 (c18_real [0;1;2]) /\ ~ In 0 (corners [2;1;4]) /\ In 4 (corners [2;1;4]).
+Proof.
+  cbv zeta. split; [vm_compute; reflexivity|]. split; [vm_compute; reflexivity|].
+  split; [vm_compute; auto|]. split; [vm_compute; intros [H|[H|[H|[]]]]; discriminate|vm_compute; auto].
+Qed.
+
+(* non-vacuity of c18_dual_node_face: octahedron, dual face 0 (node +x), corner 3 *)
+Example c18_dual_node_face_nonvacuous :
+  nth_error (c18_dual_face_nodes c18_octa (length c18_octa_nodes)) 0 = Some 0 /\
+  nth_error (c18_dual_faces c18_octa c18_octa_nodes c18_octa_centres) 0 = Some [0;3;7;4] /\
+  In 3 (c18_real [0;3;7;4]).
+Proof. split; [vm_compute; reflexivity|]. split; [vm_compute; reflexivity|vm_compute; auto]. Qed.
